@@ -4,6 +4,7 @@ import (
 	"bytes"
 	"encoding/hex"
 	"fmt"
+	"runtime/debug"
 	"strings"
 	"testing"
 	"time"
@@ -419,7 +420,20 @@ func runC14(c c14Case, rec *ev.Recorder) *Failure {
 		return nil
 	}
 	// accepted
-	srcAfter, dstAfter := c14Snapshot(f, e, ctx, srcAcc), c14Snapshot(f, e, ctx, dstAcc)
+	// reading the two accounts after an accepted migration (balances, delegations, pending rewards,
+	// unbondings, votes ...) uses the ordinary queries: a query that panics now is a broken record
+	var srcAfter, dstAfter c14Portfolio
+	if pf := func() (pf *Failure) {
+		defer func() {
+			if r := recover(); r != nil {
+				pf = failf("C14/query-panics-after-migration", "%s: reading the migrated accounts panics: %v\n%s", desc, r, trimStack(string(debug.Stack())))
+			}
+		}()
+		srcAfter, dstAfter = c14Snapshot(f, e, ctx, srcAcc), c14Snapshot(f, e, ctx, dstAcc)
+		return nil
+	}(); pf != nil {
+		return pf
+	}
 	if !srcAfter.empty() {
 		return failf("C14/source-not-empty", "%s: the source still holds %s", desc, srcAfter)
 	}
